@@ -19,7 +19,6 @@ package main
 // real result unchanged (which then differs from the expectation).
 
 import (
-	"sync"
 	"bytes"
 	"crypto/des"
 	"crypto/hmac"
@@ -31,6 +30,7 @@ import (
 	"io"
 	"math/bits"
 	"strings"
+	"sync"
 	"time"
 	"unicode/utf16"
 
